@@ -381,7 +381,14 @@ static int rr_m(struct rr_run *R, int nd, int p, const struct rr_k *k)
  * leftmost first-parse: returns 1 and fills so/eo/groups (byte offsets, -1 unset) or 0.
  * Only defined for patterns without a nullable starred sub-term.
  */
+static int rr_first_from(const struct rr_ast *a, const struct rr_subj *sj, int p0, int *grps, int ngrps);
 static int rr_first(const struct rr_ast *a, const struct rr_subj *sj, int *grps, int ngrps)
+{
+	return rr_first_from(a, sj, 0, grps, ngrps);
+}
+
+/* the same, considering only matches that start at position index >= p0 */
+static int rr_first_from(const struct rr_ast *a, const struct rr_subj *sj, int p0, int *grps, int ngrps)
 {
 	struct rr_run R;
 	struct rr_k acc = {3, 0, 0, NULL};
@@ -389,7 +396,7 @@ static int rr_first(const struct rr_ast *a, const struct rr_subj *sj, int *grps,
 	R.a = a;
 	R.sj = sj;
 	R.steps = 0;
-	for (s = 0; s < sj->np; s++) {
+	for (s = p0; s < sj->np; s++) {
 		for (i = 0; i < RR_MAXGRP * 2; i++)
 			R.grp[i] = -1;
 		if (rr_m(&R, a->root, s, &acc)) {
